@@ -31,10 +31,12 @@ structure BarCfg where
   scaler : Scaler
   fmt : Fmt
   barSize : Int
+  /-- the width of the key column (`maxKeyLength`) -/
+  keyw : Int
 
 def BarGraph.cfg (g : BarGraph) : BarCfg :=
   { stacked := g.stacked, first := g.prefixLines.toNat, nsub := g.subKeys.length, max := g.maxLineVal,
-    scaler := g.scaler, fmt := g.fmt, barSize := g.barSize }
+    scaler := g.scaler, fmt := g.fmt, barSize := g.barSize, keyw := g.maxKeyLength }
 
 /-- the value the running maximum is compared with for a row -/
 def rowMax (stacked : Bool) (vals : List Int) : Int := if stacked then sumPositive vals else maxi64 vals
@@ -53,7 +55,7 @@ theorem BarCfg.rowStart_mono (c : BarCfg) {i j : Nat} (h : i < j) : c.rowStart i
 
 /-- the text of a stacked row (key padded to `w`) -/
 def BarCfg.stackedText (c : BarCfg) (env : Env) (w : Int) (key : Bytes) (vals : List Int) : Bytes :=
-  wrap env cYellow (padRight key w) ++ ascii "  " ++
+  wrap env cYellow (padVis env key w) ++ ascii "  " ++
     (match barWriteStacked env c.max c.barSize vals with | .ok b => b | .error _ => []) ++ ascii "  " ++
     c.fmt.apply (sumWrap vals) 0 c.max
 
@@ -65,13 +67,13 @@ def BarCfg.barBytes (c : BarCfg) (A : Arith α) (env : Env) (v : Int) : Bytes :=
 
 /-- line `j` of a grouped row (key padded to `w`; the lines below the first are indented by `w + 2`) -/
 def BarCfg.groupedText (c : BarCfg) (A : Arith α) (env : Env) (w : Int) (key : Bytes) (j : Nat) (v : Int) : Bytes :=
-  (if j > 0 then spaces (w + 2) else wrap env cYellow (padRight key w) ++ ascii "  ") ++
+  (if j > 0 then spaces (w + 2) else wrap env cYellow (padVis env key w) ++ ascii "  ") ++
     colorWrite env (groupColors.getD (j % groupColors.length) []) (c.barBytes A env v) ++ [32] ++ c.fmt.apply v 0 c.max
 
-/-- row `i` is on the screen, drawn with the configuration `c` (in particular its running maximum) -/
+/-- row `i` is on the screen, drawn with the configuration `c` (in particular its running maximum and its key column width) -/
 def RowDrawn (A : Arith α) (env : Env) (c : BarCfg) (vt : VirtualTerm) (i : Nat) (row : Bytes × List Int) : Prop :=
-  if c.stacked then ∃ w, vt.lines[c.rowStart i]? = some (c.stackedText env w row.1 row.2)
-  else ∀ (j : Nat) (v : Int), row.2[j]? = some v → ∃ w, vt.lines[c.rowStart i + j]? = some (c.groupedText A env w row.1 j v)
+  if c.stacked then vt.lines[c.rowStart i]? = some (c.stackedText env c.keyw row.1 row.2)
+  else ∀ (j : Nat) (v : Int), row.2[j]? = some v → vt.lines[c.rowStart i + j]? = some (c.groupedText A env c.keyw row.1 j v)
 
 /-- the row fits its slot (always for a stacked row; a grouped row has at most one value per sub-key) -/
 def RowFits (c : BarCfg) (row : Bytes × List Int) : Prop := c.stacked = true ∨ row.2.length ≤ c.nsub
@@ -93,16 +95,15 @@ theorem RowDrawn.keep {env : Env} {c : BarCfg} {vt vt' : VirtualTerm} {i : Nat} 
   unfold RowDrawn rowLines at *
   by_cases hs : c.stacked = true
   · rw [if_pos hs] at h hk ⊢
-    obtain ⟨w, hw⟩ := h
-    exact ⟨w, hk _ _ (Nat.le_refl _) (by omega) hw⟩
+    exact hk _ _ (Nat.le_refl _) (by omega) h
   · rw [if_neg hs] at h hk ⊢
     intro j v hj
-    obtain ⟨w, hw⟩ := h j v hj
+    have hw := h j v hj
     have hlt : j < row.2.length := by
       rcases Nat.lt_or_ge j row.2.length with hh | hh
       · exact hh
       · rw [List.getElem?_eq_none hh] at hj; cases hj
-    exact ⟨w, hk _ _ (by omega) (by omega) hw⟩
+    exact hk _ _ (by omega) (by omega) hw
 
 /-! ### one row -/
 
@@ -132,12 +133,12 @@ theorem bars_stacked_row (env : Env) (g : BarGraph) (vt : VirtualTerm) (ho : vt.
   obtain ⟨vt', hw, ho', hl, hk⟩ := vt_write_ok vt ho (g.prefixLines.toNat + i) (g.cfg.stackedText env g.maxKeyLength key vals)
   refine ⟨m, vt', ?_, ho', hl, hk⟩
   have ht : g.cfg.stackedText env g.maxKeyLength key vals =
-      wrap env cYellow (padRight key g.maxKeyLength) ++ ascii "  " ++ bar ++ ascii "  " ++ g.fmt.apply (sumWrap vals) 0 g.maxLineVal := by
+      wrap env cYellow (padVis env key g.maxKeyLength) ++ ascii "  " ++ bar ++ ascii "  " ++ g.fmt.apply (sumWrap vals) 0 g.maxLineVal := by
     unfold BarCfg.stackedText BarGraph.cfg
     simp only [hbar]
   rw [ht] at hw
   show (do let bar ← barWriteStacked env g.maxLineVal g.barSize vals
-           let vt' ← vt.writeForLine _ (wrap env cYellow (padRight key g.maxKeyLength) ++ ascii "  " ++ bar ++ ascii "  " ++ g.fmt.apply (sumWrap vals) 0 g.maxLineVal)
+           let vt' ← vt.writeForLine _ (wrap env cYellow (padVis env key g.maxKeyLength) ++ ascii "  " ++ bar ++ ascii "  " ++ g.fmt.apply (sumWrap vals) 0 g.maxLineVal)
            (pure (g.withMaxRows _, vt') : Res (BarGraph × VirtualTerm))) = _
   rw [hbar]
   show (do let vt' ← vt.writeForLine _ _; (pure (g.withMaxRows _, vt') : Res (BarGraph × VirtualTerm))) = _
@@ -185,7 +186,7 @@ def groupedStep (A : Arith α) (env : Env) (g : BarGraph) (head : Bytes) (line :
 
 theorem groupedStep_ok (U : UnitLaws A Dom Unit le) (env : Env) (g : BarGraph) (key : Bytes) (start : Nat) (vt : VirtualTerm) (ho : vt.closed = false)
     (v : Int) (j : Nat) (hd : Dom v) (hm : Dom g.maxLineVal) (hk : 0 ≤ g.maxKeyLength) (hb : 0 ≤ g.barSize) (hb' : g.barSize ≤ 1000000000000000) :
-    ∃ vt', groupedStep A env g (wrap env cYellow (padRight key g.maxKeyLength) ++ ascii "  ") (start : Int) vt (v, j) = .ok vt' ∧ vt'.closed = false ∧
+    ∃ vt', groupedStep A env g (wrap env cYellow (padVis env key g.maxKeyLength) ++ ascii "  ") (start : Int) vt (v, j) = .ok vt' ∧ vt'.closed = false ∧
       vt'.lines[start + j]? = some (g.cfg.groupedText A env g.maxKeyLength key j v) ∧
       (∀ x y, x ≠ start + j → vt.lines[x]? = some y → vt'.lines[x]? = some y) := by
   obtain ⟨bar, hbar⟩ := U.barWrite_ok env (U.scale_unit g.scaler hd U.dom_zero hm) hb hb'
@@ -196,7 +197,7 @@ theorem groupedStep_ok (U : UnitLaws A Dom Unit le) (env : Env) (g : BarGraph) (
     rw [e]
     exact getIdx_nat groupColors _ [] (Nat.mod_lt _ (by decide))
   have htext : g.cfg.groupedText A env g.maxKeyLength key j v =
-      (if j > 0 then spaces (g.maxKeyLength + 2) else wrap env cYellow (padRight key g.maxKeyLength) ++ ascii "  ") ++
+      (if j > 0 then spaces (g.maxKeyLength + 2) else wrap env cYellow (padVis env key g.maxKeyLength) ++ ascii "  ") ++
         colorWrite env (groupColors.getD (j % groupColors.length) []) bar ++ [32] ++ g.fmt.apply v 0 g.maxLineVal := by
     unfold BarCfg.groupedText BarCfg.barBytes BarGraph.cfg
     simp only [hbar]
@@ -221,7 +222,7 @@ theorem groupedStep_ok (U : UnitLaws A Dom Unit le) (env : Env) (g : BarGraph) (
 theorem grouped_loop_ok (U : UnitLaws A Dom Unit le) (env : Env) (g : BarGraph) (key : Bytes) (start : Nat)
     (hm : Dom g.maxLineVal) (hk : 0 ≤ g.maxKeyLength) (hb : 0 ≤ g.barSize) (hb' : g.barSize ≤ 1000000000000000) :
     ∀ (l : List Int) (b : Nat) (vt : VirtualTerm), vt.closed = false → (∀ v ∈ l, Dom v) →
-    ∃ vt', (l.zipIdx b).foldlM (groupedStep A env g (wrap env cYellow (padRight key g.maxKeyLength) ++ ascii "  ") (start : Int)) vt = .ok vt' ∧
+    ∃ vt', (l.zipIdx b).foldlM (groupedStep A env g (wrap env cYellow (padVis env key g.maxKeyLength) ++ ascii "  ") (start : Int)) vt = .ok vt' ∧
       vt'.closed = false ∧
       (∀ (j : Nat) (v : Int), l[j]? = some v → vt'.lines[start + (b + j)]? = some (g.cfg.groupedText A env g.maxKeyLength key (b + j) v)) ∧
       (∀ x y, (x < start + b ∨ start + b + l.length ≤ x) → vt.lines[x]? = some y → vt'.lines[x]? = some y) := by
@@ -251,7 +252,7 @@ theorem writeBarGrouped_eq (env : Env) (g : BarGraph) (vt : VirtualTerm) (idx : 
       (let g1 : BarGraph := { g with maxLineVal := vals.foldl (fun m v => if v > m then v else m) g.maxLineVal }
        let line := wrap64 (g1.prefixLines + wrap64 (idx * g1.subKeys.length))
        let g2 := g1.withMaxRows (if wrap64 (line + g1.subKeys.length) > g1.maxRows then wrap64 (line + g1.subKeys.length) else g1.maxRows)
-       do let vt' ← vals.zipIdx.foldlM (groupedStep A env g2 (wrap env cYellow (padRight key g1.maxKeyLength) ++ ascii "  ") line) vt
+       do let vt' ← vals.zipIdx.foldlM (groupedStep A env g2 (wrap env cYellow (padVis env key g1.maxKeyLength) ++ ascii "  ") line) vt
           pure (g2, vt')) := by
   unfold BarGraph.writeBarGrouped BarGraph.withMaxRows
   by_cases hc : wrap64 (wrap64 (g.prefixLines + wrap64 (idx * ↑g.subKeys.length)) + ↑g.subKeys.length) > g.maxRows
@@ -262,7 +263,7 @@ theorem writeBarGrouped_eq (env : Env) (g : BarGraph) (vt : VirtualTerm) (idx : 
 theorem writeBarGrouped_covered (env : Env) (g : BarGraph) (vt : VirtualTerm) (idx : Int) (key : Bytes) (vals : List Int)
     (hfix : vals.foldl (fun m v => if v > m then v else m) g.maxLineVal = g.maxLineVal) :
     ∃ M, g.writeBarGrouped A env vt idx key vals = (do
-      let vt' ← vals.zipIdx.foldlM (groupedStep A env (g.withMaxRows M) (wrap env cYellow (padRight key g.maxKeyLength) ++ ascii "  ")
+      let vt' ← vals.zipIdx.foldlM (groupedStep A env (g.withMaxRows M) (wrap env cYellow (padVis env key g.maxKeyLength) ++ ascii "  ")
         (wrap64 (g.prefixLines + wrap64 (idx * g.subKeys.length)))) vt
       pure (g.withMaxRows M, vt')) := by
   rw [writeBarGrouped_eq]
@@ -290,7 +291,7 @@ theorem bars_grouped_row (U : UnitLaws A Dom Unit le) (env : Env) (g : BarGraph)
   rw [hM, hline]
   obtain ⟨vt', hf, ho', hrows, hkeep⟩ := grouped_loop_ok U env (g.withMaxRows M) key (g.prefixLines.toNat + i * g.subKeys.length)
     hm hk hb hb' vals 0 vt ho hdom
-  have hf' : vals.zipIdx.foldlM (groupedStep A env (g.withMaxRows M) (wrap env cYellow (padRight key g.maxKeyLength) ++ ascii "  ")
+  have hf' : vals.zipIdx.foldlM (groupedStep A env (g.withMaxRows M) (wrap env cYellow (padVis env key g.maxKeyLength) ++ ascii "  ")
       ((g.prefixLines.toNat + i * g.subKeys.length : Nat) : Int)) vt = .ok vt' := hf
   refine ⟨M, vt', ?_, ho', ?_, ?_⟩
   · rw [hf']; rfl
@@ -319,7 +320,7 @@ theorem bars_writeBar_row (U : UnitLaws A Dom Unit le) (env : Env) (g : BarGraph
     rw [if_pos hs]
     obtain ⟨m, vt', hw, ho', hl, hkeep⟩ := bars_stacked_row env g vt ho i key vals (by simpa [rowMax, hs] using hcov) hp (by omega)
     refine ⟨m, vt', hw, ho', ?_, ?_⟩
-    · unfold RowDrawn; rw [if_pos hst, hstart]; exact ⟨_, hl⟩
+    · unfold RowDrawn; rw [if_pos hst, hstart]; exact hl
     · intro x y hx hy
       have : rowLines g.cfg (key, vals) = 1 := by simp [rowLines, hst]
       exact hkeep x y (by omega) hy
@@ -333,7 +334,7 @@ theorem bars_writeBar_row (U : UnitLaws A Dom Unit le) (env : Env) (g : BarGraph
       (fun v hv => Int.le_trans ((maxi64_ge vals).2 v hv) (by simpa [rowMax, hs] using hcov)) hdom hm hk hb hb' hp (by omega)
     refine ⟨m, vt', hw, ho', ?_, ?_⟩
     · unfold RowDrawn; rw [if_neg (by simp [hst]), hstart]
-      intro j v hj; exact ⟨_, hl j v hj⟩
+      intro j v hj; exact hl j v hj
     · intro x y hx hy
       have : rowLines g.cfg (key, vals) = vals.length := by simp [rowLines, hst]
       exact hkeep x y (by omega) hy
@@ -469,9 +470,10 @@ def BarGraph.afterBar (env : Env) (g : BarGraph) (j : Nat) (key : Bytes) (vals :
            rows := rowsAfterBar g.rows j (key, vals),
            maxLineVal := if rowMax g.stacked vals > g.maxLineVal then rowMax g.stacked vals else g.maxLineVal }
 
+set_option linter.unusedSimpArgs false in
 theorem writeBarTop_unfold (env : Env) (g : BarGraph) (vt : VirtualTerm) (j : Nat) (key : Bytes) (vals : List Int) :
     g.writeBarTop A env vt (j : Int) key vals =
-      if rowMax g.stacked vals > g.maxLineVal then
+      if strLen env key > g.maxKeyLength ∨ rowMax g.stacked vals > g.maxLineVal then
         (g.afterBar env j key vals).rows.zipIdx.foldlM (fun (st : BarGraph × VirtualTerm) (ri : (Bytes × List Int) × Nat) =>
           st.1.writeBar A env st.2 ri.2 ri.1.1 ri.1.2) (g.afterBar env j key vals, vt)
       else (g.afterBar env j key vals).writeBar A env vt (j : Int) key vals := by
@@ -485,12 +487,12 @@ theorem writeBarTop_unfold (env : Env) (g : BarGraph) (vt : VirtualTerm) (j : Na
   by_cases h1 : strLen env key > g.maxKeyLength
   · simp only [h1, if_true, hset g.rows rfl, bind, Except.bind]
     by_cases h2 : (if g.stacked = true then sumPositive vals else maxi64 vals) > g.maxLineVal
-    · simp only [h2, if_true]
-    · simp only [h2, if_false]
+    · simp only [h2, if_true, decide_true, decide_false, Bool.or_true, Bool.or_false, Bool.true_or, Bool.false_or, true_or, or_true, or_self, or_false, false_or, Bool.false_eq_true, if_false]
+    · simp only [h2, if_false, decide_true, decide_false, Bool.or_true, Bool.or_false, Bool.true_or, Bool.false_or, true_or, or_true, or_self, or_false, false_or, Bool.false_eq_true, if_true]
   · simp only [h1, if_false, hset g.rows rfl, bind, Except.bind]
     by_cases h2 : (if g.stacked = true then sumPositive vals else maxi64 vals) > g.maxLineVal
-    · simp only [h2, if_true]
-    · simp only [h2, if_false]
+    · simp only [h2, if_true, decide_true, decide_false, Bool.or_true, Bool.or_false, Bool.true_or, Bool.false_or, true_or, or_true, or_self, or_false, false_or, Bool.false_eq_true, if_false]
+    · simp only [h2, if_false, decide_true, decide_false, Bool.or_true, Bool.or_false, Bool.true_or, Bool.false_or, true_or, or_true, or_self, or_false, false_or, Bool.false_eq_true, if_true]
 
 /-- what every call leaves true: the running maximum covers every stored row -/
 structure BarPre (Dom : Int → Prop) (g : BarGraph) (vt : VirtualTerm) : Prop where
@@ -542,7 +544,8 @@ theorem dom_rowMax (U : UnitLaws A Dom Unit le) (st : Bool) (vals : List Int) (h
   · exact dom_maxi64 U vals hd
 
 theorem afterBar_cfg (env : Env) (g : BarGraph) (j : Nat) (key : Bytes) (vals : List Int) :
-    (g.afterBar env j key vals).cfg = { g.cfg with max := if rowMax g.stacked vals > g.maxLineVal then rowMax g.stacked vals else g.maxLineVal } := rfl
+    (g.afterBar env j key vals).cfg = { g.cfg with max := if rowMax g.stacked vals > g.maxLineVal then rowMax g.stacked vals else g.maxLineVal,
+                                                    keyw := if strLen env key > g.maxKeyLength then strLen env key else g.maxKeyLength } := rfl
 
 theorem afterBar_pre (U : UnitLaws A Dom Unit le) (env : Env) (g : BarGraph) (vt : VirtualTerm) (hpre : BarPre Dom g vt) (j : Nat) (key : Bytes)
     (vals : List Int) (hj : j ≤ g.rows.length) (hd : ∀ v ∈ vals, Dom v) (m : Int) (vt' : VirtualTerm) (ho : vt'.closed = false) :
@@ -579,8 +582,8 @@ theorem bars_writeBarTop_step (U : UnitLaws A Dom Unit le) (env : Env) (g : BarG
       DrawnBelow A env ((g.afterBar env j key vals).withMaxRows m) vt' (j + 1) := by
   rw [writeBarTop_unfold]
   obtain ⟨rj, rne, rlen, rlen'⟩ := rowsAfterBar_get g.rows j (key, vals) hj
-  by_cases hgt : rowMax g.stacked vals > g.maxLineVal
-  · -- the running maximum grows: everything is redrawn
+  by_cases hgt : strLen env key > g.maxKeyLength ∨ rowMax g.stacked vals > g.maxLineVal
+  · -- the key column or the running maximum grows: everything is redrawn
     rw [if_pos hgt]
     have hpre1 := afterBar_pre U env g vt hpre j key vals hj hd g.maxRows vt hpre.isOpen
     have hgeo1 : (g.afterBar env j key vals).cfg.rowStart (0 + (g.afterBar env j key vals).rows.length) +
@@ -610,13 +613,15 @@ theorem bars_writeBarTop_step (U : UnitLaws A Dom Unit le) (env : Env) (g : BarG
     exact ⟨hfit', this⟩
   · -- no new maximum: only this row is written
     rw [if_neg hgt]
+    have hgt1 : ¬ strLen env key > g.maxKeyLength := fun h => hgt (Or.inl h)
+    have hgt2 : ¬ rowMax g.stacked vals > g.maxLineVal := fun h => hgt (Or.inr h)
     have hcfg : (g.afterBar env j key vals).cfg = g.cfg := by
-      rw [afterBar_cfg, if_neg hgt]; rfl
+      rw [afterBar_cfg, if_neg hgt1, if_neg hgt2]; rfl
     have hpre1 := afterBar_pre U env g vt hpre j key vals hj hd g.maxRows vt hpre.isOpen
     have hstart : g.cfg.rowStart j + g.cfg.slot ≤ g.cfg.rowStart N := g.cfg.rowStart_mono (by omega)
     obtain ⟨m, vt', hw, ho', hdj, hkeep⟩ := bars_writeBar_row U env (g.afterBar env j key vals) vt hpre.isOpen j key vals
       (by show rowMax g.stacked vals ≤ (if rowMax g.stacked vals > g.maxLineVal then rowMax g.stacked vals else g.maxLineVal)
-          rw [if_neg hgt]; omega)
+          rw [if_neg hgt2]; omega)
       hd hpre1.dom_max hpre1.key_nonneg hpre1.bar_size.1 hpre1.bar_size.2 hpre1.prefix_nonneg (by rw [hcfg]; omega)
     refine ⟨m, vt', hw, afterBar_pre U env g vt hpre j key vals hj hd m vt' ho', ?_⟩
     intro i row hi hrow
@@ -636,7 +641,7 @@ theorem bars_writeBarTop_step (U : UnitLaws A Dom Unit le) (env : Env) (g : BarG
 /-! ### a render: `SetKeys`, then `WriteBar(0 … n-1)` -/
 
 /-- same layout and settings, possibly another running maximum -/
-def BarCfg.SameLayout (c c' : BarCfg) : Prop := c' = { c with max := c'.max }
+def BarCfg.SameLayout (c c' : BarCfg) : Prop := c' = { c with max := c'.max, keyw := c'.keyw }
 
 theorem BarCfg.SameLayout.refl (c : BarCfg) : c.SameLayout c := rfl
 
@@ -669,12 +674,14 @@ theorem bars_loop_inv (U : UnitLaws A Dom Unit le) (env : Env) (N : Nat) : ∀ (
       BarPre Dom g' vt' ∧ DrawnBelow A env g' vt' (j + l.length) ∧
       (∀ (i : Nat) (row : Bytes × List Int), l[i]? = some row → g'.rows[j + i]? = some row) ∧
       (∀ i, i < j → g'.rows[i]? = g.rows[i]?) ∧ j + l.length ≤ g'.rows.length ∧
-      g.cfg.SameLayout g'.cfg ∧ g.maxLineVal ≤ g'.maxLineVal := by
+      g.cfg.SameLayout g'.cfg ∧ g.maxLineVal ≤ g'.maxLineVal ∧
+      g.maxKeyLength ≤ g'.maxKeyLength ∧ (∀ row ∈ l, strLen env row.1 ≤ g'.maxKeyLength) := by
   intro l
   induction l with
   | nil =>
     intro g vt j hpre hdr hj _ _ _
-    exact ⟨g, vt, rfl, hpre, hdr, by intro i row h; simp at h, fun i _ => rfl, hj, BarCfg.SameLayout.refl _, Int.le_refl _⟩
+    exact ⟨g, vt, rfl, hpre, hdr, by intro i row h; simp at h, fun i _ => rfl, hj, BarCfg.SameLayout.refl _, Int.le_refl _, Int.le_refl _,
+      by intro row h; cases h⟩
   | cons row l ih =>
     intro g vt j hpre hdr hj hrows hN hgeo
     simp only [List.length_cons] at hN ⊢
@@ -684,10 +691,20 @@ theorem bars_loop_inv (U : UnitLaws A Dom Unit le) (env : Env) (N : Nat) : ∀ (
     obtain ⟨rj, rne, rlen, rlen'⟩ := rowsAfterBar_get g.rows j (row.1, row.2) hj
     generalize hg1 : (g.afterBar env j row.1 row.2).withMaxRows m = g1 at hw hpre1 hdr1 hlay hmx
     have hrows1 : g1.rows = rowsAfterBar g.rows j (row.1, row.2) := by rw [← hg1]; rfl
-    obtain ⟨g2, vt2, hf, hpre2, hdr2, hget, hlow, hlen2, hlay2, hmx2⟩ := ih g1 vt1 (j + 1) hpre1 hdr1 (by rw [hrows1]; omega)
+    have hkey1 : g.maxKeyLength ≤ g1.maxKeyLength ∧ strLen env row.1 ≤ g1.maxKeyLength := by
+      rw [← hg1]
+      show g.maxKeyLength ≤ (if strLen env row.1 > g.maxKeyLength then strLen env row.1 else g.maxKeyLength) ∧
+        strLen env row.1 ≤ (if strLen env row.1 > g.maxKeyLength then strLen env row.1 else g.maxKeyLength)
+      split <;> omega
+    obtain ⟨g2, vt2, hf, hpre2, hdr2, hget, hlow, hlen2, hlay2, hmx2, hkw2, hkc2⟩ := ih g1 vt1 (j + 1) hpre1 hdr1 (by rw [hrows1]; omega)
       (fun r hr => ⟨(hrows r (by simp [hr])).1, (hlay.fits r).mpr (hrows r (by simp [hr])).2⟩)
       (by rw [hrows1]; omega) (by rw [hlay.geo]; exact hgeo)
-    refine ⟨g2, vt2, ?_, hpre2, ?_, ?_, ?_, by omega, hlay.trans hlay2, by omega⟩
+    refine ⟨g2, vt2, ?_, hpre2, ?_, ?_, ?_, by omega, hlay.trans hlay2, by omega, by omega, ?_⟩
+    rotate_left 4
+    · intro r hr
+      rcases List.mem_cons.mp hr with rfl | hr'
+      · omega
+      · exact hkc2 r hr'
     · rw [List.foldlM_cons]
       simp only [hw, bind, Except.bind, pure, Except.pure]
       have e1 : ((j : Int) + 1) = ((j + 1 : Nat) : Int) := by omega
@@ -764,7 +781,8 @@ theorem bars_render_inv (U : UnitLaws A Dom Unit le) (env : Env) (g : BarGraph) 
       (∀ (i : Nat) (row : Bytes × List Int), rows[i]? = some row → g'.rows[i]? = some row ∧ RowDrawn A env g'.cfg vt' i row) ∧
       g'.cfg.stacked = g.stacked ∧ g'.cfg.nsub = subKeys.length ∧ g'.cfg.scaler = g.scaler ∧ g'.cfg.fmt = g.fmt ∧
       g'.cfg.barSize = g.barSize ∧ g'.cfg.max = g'.maxLineVal ∧ g.maxLineVal ≤ g'.maxLineVal ∧
-      (g'.cfg.first = g.prefixLines.toNat ∨ g'.cfg.first = 1) := by
+      (g'.cfg.first = g.prefixLines.toNat ∨ g'.cfg.first = 1) ∧
+      g'.cfg.keyw = g'.maxKeyLength ∧ g.maxKeyLength ≤ g'.maxKeyLength ∧ (∀ row ∈ rows, strLen env row.1 ≤ g'.maxKeyLength) := by
   obtain ⟨p, vt1, hs, ho1, hp⟩ := bars_setKeys_ok env g vt hpre.isOpen hpre.key_nonneg subKeys
   generalize hg1 : ({ g with subKeys := subKeys, prefixLines := p } : BarGraph) = g1 at hs
   have e_rows : g1.rows = g.rows := by rw [← hg1]
@@ -784,7 +802,8 @@ theorem bars_render_inv (U : UnitLaws A Dom Unit le) (env : Env) (g : BarGraph) 
     have h2 : (N + 1) * (subKeys.length + 1) = N * (subKeys.length + 1) + (subKeys.length + 1) := by rw [Nat.add_mul]; omega
     unfold BarCfg.rowStart
     omega
-  obtain ⟨g2, vt2, hf, hpre2, hdr2, hget, _, _, hlay, hmx⟩ := bars_loop_inv U env N rows g1 vt1 0 hpre1
+  have e_key : g1.maxKeyLength = g.maxKeyLength := by rw [← hg1]
+  obtain ⟨g2, vt2, hf, hpre2, hdr2, hget, _, _, hlay, hmx, hkw, hkc⟩ := bars_loop_inv U env N rows g1 vt1 0 hpre1
     (by intro i row hi; omega) (by omega)
     (by
       intro row hr
@@ -794,8 +813,8 @@ theorem bars_render_inv (U : UnitLaws A Dom Unit le) (env : Env) (g : BarGraph) 
       rw [e_cfg]
       exact b)
     (by rw [e_rows]; exact hN) hgeo1
-  have hcfg2 : g2.cfg = { g1.cfg with max := g2.cfg.max } := hlay
-  refine ⟨g2, vt2, ?_, hpre2, ?_, ?_, ?_, ?_, ?_, ?_, rfl, by omega, ?_⟩
+  have hcfg2 : g2.cfg = { g1.cfg with max := g2.cfg.max, keyw := g2.cfg.keyw } := hlay
+  refine ⟨g2, vt2, ?_, hpre2, ?_, ?_, ?_, ?_, ?_, ?_, rfl, by omega, ?_, rfl, by omega, hkc⟩
   · unfold BarGraph.writeOutput
     have e0 : ((0 : Nat) : Int) = 0 := rfl
     rw [e0] at hf
